@@ -36,7 +36,7 @@ samples are not counted as roots; every input is checked for these preconditions
      0..2 internal nodes collapsed into polytomies and 0..3 (sample, interval) deletions producing missing
      samples -- including intervals touching the left end, the right end and whole-genome missing samples;
      40 % of them with all node ids randomly permuted (samples not the lowest ids).
-     quick: 80 simulations, thorough: 1200; all choices from numpy default_rng(seed).
+     quick: 80 simulations, thorough: 1000; all choices from numpy default_rng(seed).
   Mixture clauses are evaluated on all of A, C and on B.
 
 Tolerances: spans are sums of at most a few hundred interval lengths with integer or half-integer
@@ -199,7 +199,7 @@ def gen_inputs(tier, rng):
             if n >= 3:
                 for j in range(n):
                     yield f"B:n{n}#{idx}-leaf{j}", drop_sample_interval(ts, j, 5.0, 10.0)
-    nsim = 1200 if thorough else 80
+    nsim = 1000 if thorough else 80
     for i in range(nsim):
         n = int(rng.integers(3, 9))
         L = int(rng.choice([20, 50, 200]))
@@ -336,7 +336,7 @@ def run(req, rep):
     rep.space = ("A: all leaf-labelled tree shapes (polytomies incl.) as single trees; B: each shape x each leaf "
                  "missing on the right half; C: msprime simulations with random polytomy collapses and missing-"
                  "sample intervals; every non-sample node of every input")
-    rep.bound = (f"A,B: <= {5 if thorough else 4} leaves (exhaustive); C: {1200 if thorough else 80} simulations, "
+    rep.bound = (f"A,B: <= {5 if thorough else 4} leaves (exhaustive); C: {1000 if thorough else 80} simulations, "
                  "3..8 samples, L in {20,50,200}")
     rep.exhaustive = False
     stats = {"inputs": 0, "discarded": 0, "multi": 0, "missing": 0, "polytomy_inputs": 0}
